@@ -12,8 +12,10 @@ The admission rule is per element and history-free; beyond the single-element ca
 (one request with 2..3 elements: every assignment of the elements' valid signatures to the elements - permutations whose
 errors cancel in a sum -, one bad element at each position, duplicates, two elements of one validator) and SEQUENCES
 (2..3 calls to the same component instances that carry the same signature bytes: the valid object, one signed field
-changed, another duty type, another kind's object, exact replays, in every order).  Every schedule runs against
-component instances of its own."""
+changed, another duty type, another kind's object, exact replays, in every order) and FORK SEQUENCES (2..3 calls to the
+same component instances whose fresh objects lie in different fork versions, in ascending and descending order of
+their epochs: an implementation that remembers a signing domain from an earlier call shows here).  Every schedule runs
+against component instances of its own."""
 import json, os
 from concurrent.futures import ThreadPoolExecutor
 import vlib
@@ -34,19 +36,26 @@ RULE = ("cases = path (validator-API endpoint | peer message) x object kind (12)
         "several validators: all n^n assignments of the elements' valid signatures to the elements, with equal and with "
         "different signing roots, one bad element (4 classes) at each position, duplicates, two elements of one validator) "
         "x SEQUENCES (2..3 calls against the same component instances that carry the same signature bytes: valid, each "
-        "single field changed, other duty type, other kind's object, replay - all ordered pairs, 4 shapes of triples), "
+        "single field changed, other duty type, other kind's object, replay - all ordered pairs, 4 shapes of triples) "
+        "x FORK SEQUENCES (2..3 calls against the same component instances, every kind with an epoch-dependent domain on "
+        "both paths, fresh objects placed in different fork versions: valid object wholly in the later fork, the same signed "
+        "with the earlier fork version, plain object in the earlier fork, the same signed with the later fork version, the "
+        "fork-straddling objects - all ordered pairs of different members, i.e. ascending and descending epochs, and the "
+        "alternating triples a-b-a / b-a-b), "
         "ENUMERATED by TLC from specs/Admission (N=4 shares, V=3 validators); every schedule gets fresh component instances; the "
         "executor signs from the model's own tables (domain name and epoch source per type, carried in the schedule); "
         "quick: stratified - at least one case of every (path, kind, alteration, argument) class, every data version for "
-        "the unaltered and the fork-straddling cases - plus a seeded sample, thorough: all; each "
+        "the unaltered, the later-fork and the fork-straddling cases, every ordered pair of plain members of a fork sequence per "
+        "(path, kind) - plus a seeded sample, thorough: all; each "
         "case is instantiated with real eth2 objects and threshold BLS shares and sent through the real handler; distinct = "
         "distinct (case, recorded outcome) pairs")
 ASSUMPTIONS = [
     "crypto abstraction: a signature verifies under a key share for an object iff that share made it over that object's root with "
     "that object's domain and fork version (herumi BLS is exercised for real in the executor; no forgery is attempted)",
-    "beacon node = testutil/beaconmock (fork schedule of its static spec: contents in epoch 100, 'other fork' = epoch 4196, "
-    "fork-straddling objects around its first later activation, epoch 2048); the real core.NewDutyGater with a driver-set "
-    "clock (the object's slot; 2 future epochs allowed); parsigex's handler is entered through "
+    "beacon node = testutil/beaconmock (fork schedule of its static spec: contents in epoch 100, 'other fork' = epoch 4196 "
+    "(later-fork objects live wholly there), fork-straddling objects around its first later activation, epoch 2048; the "
+    "executor refuses a schedule with a second activation in between); the real core.NewDutyGater with a driver-set "
+    "clock (the object's slot, also when the calls of a fork sequence go back in time; 2 future epochs allowed); parsigex's handler is entered through "
     "the build-tag hook VerifHandle with the real NewEth2Verifier",
     "scheduler / DutyDB / AggSigDB inputs of the validator API are stubs: the scheduled proposer and the agreed proposal are the "
     "case's, attester duties place validator v at position v of committee 7",
@@ -68,7 +77,8 @@ CONTROLS = [("AdmissionMC_ctl_dropverify.cfg", "verifyPartialSig dropped from Su
             ("AdmissionMC_ctl_swapepoch_agg.cfg", "aggregate domain taken from the target epoch's fork, not the slot's"),
             ("AdmissionMC_ctl_signedgater.cfg", "duty gater in int64: a duty slot >= 2^63 passes"),
             ("AdmissionMC_ctl_aggbatch.cfg", "SubmitSyncCommitteeMessages checks a request with one aggregate verification per signing root"),
-            ("AdmissionMC_ctl_memo.cfg", "the peer verifier admits a remembered (public share, signature) pair without looking at the object")]
+            ("AdmissionMC_ctl_memo.cfg", "the peer verifier admits a remembered (public share, signature) pair without looking at the object"),
+            ("AdmissionMC_ctl_domcache.cfg", "the validator API verifies under the signing domain it remembered from a later epoch")]
 
 
 def design_check(o, thorough):
@@ -77,7 +87,7 @@ def design_check(o, thorough):
     jobs = [(c, None) for c in main] + CONTROLS
     w = max(2, vlib.NCPU // 5)
     dirs = [vlib.scratch(PID, FAMILY) for _ in jobs]      # (scratch() is not thread-safe: allocate up front)
-    with ThreadPoolExecutor(max_workers=4) as ex:
+    with ThreadPoolExecutor(max_workers=5) as ex:
         res = list(ex.map(lambda jd: vlib.tlc(PID, FAMILY, "AdmissionMC", jd[0][0], workers=w, timeout=900, sdir=jd[1]),
                           zip(jobs, dirs)))
     for (cfg, what), r in zip(jobs, res):
@@ -90,7 +100,7 @@ def design_check(o, thorough):
             o.selftests.append({"control": "spec variant '%s' violates OnlyValidEnter" % what, "rejected_as_required": True})
 
 
-GEN_CFGS = ("AdmissionGen.cfg", "AdmissionGen_batch.cfg", "AdmissionGen_seq.cfg")
+GEN_CFGS = ("AdmissionGen.cfg", "AdmissionGen_batch.cfg", "AdmissionGen_seq.cfg", "AdmissionGen_fseq.cfg")
 
 
 def enumerate_cases(cfg, sdir):
@@ -109,11 +119,35 @@ def enumerate_cases(cfg, sdir):
     return out, r
 
 
-PER_VERSION = ("none", "straddleOK", "straddleBad", "wrongFork")
+PER_VERSION = ("none", "straddleOK", "straddleBad", "wrongFork", "laterFork")
+FORK_ONLY = ("wrongFork", "laterFork", "laterForkBad", "straddleOK", "straddleBad")
+STRADDLE = ("straddleOK", "straddleBad")
+LATER = ("laterFork", "laterForkBad")
 
 
 def is_batch(s):
     return s[1]["ev"] == "SubmitBatch"
+
+
+def submits(s):
+    """The cases of the Submit steps of a schedule (or of a recorded trace)."""
+    return [x["c"] for x in s[1:] if x.get("ev") == "Submit"]
+
+
+def is_fseq(s):
+    cs = submits(s)
+    return len(cs) > 1 and any(c["alt"] in FORK_ONLY for c in cs)
+
+
+def fork_order(s):
+    """Order of the epochs of the first two calls of a fork sequence of plain members: 'desc' later fork first,
+    'asc' earlier fork first, None otherwise."""
+    if not is_fseq(s):
+        return None
+    a = [c["alt"] for c in submits(s)[:2]]
+    if any(x in STRADDLE for x in a) or (a[0] in LATER) == (a[1] in LATER):
+        return None
+    return "desc" if a[0] in LATER else "asc"
 
 
 def cls(s):
@@ -124,6 +158,14 @@ def cls(s):
     if is_batch(s):
         q = c["pat"]
         return ("batch", c["path"], c["kind"], tuple(q["vs"]), tuple(q["cs"]), tuple(q["ss"]), tuple(q["bad"]))
+    if is_fseq(s):
+        # fork sequences: (path, kind, the calls' alterations); pairs of plain members (object wholly in one fork
+        # version) are classes of their own - every (path, kind) gets both orders of epochs -, pairs with a
+        # fork-straddling member are lumped over the side of the straddle, triples over all but the first fork
+        alts = tuple(x["c"]["alt"] for x in s[1:])
+        if len(alts) == 3:
+            return ("fseq3", c["path"], c["kind"], alts[0] in LATER)
+        return ("fseq", c["path"], c["kind"]) + alts
     if len(s) > 2:
         return ("seq", c["path"]) + tuple((x["c"]["kind"], x["c"]["alt"], x["c"]["as"]) for x in s[1:])
     return (c["path"], c["kind"], c["alt"], c["as"], c["ai"] if c["alt"] == "dutyType" else 0,
@@ -158,6 +200,33 @@ def mutators():
                 t.insert(i + 1, dict(t[2]))
                 return t
         return None
+
+    def calls_of(t):
+        """[(case, delivered?)] of a trace's Submit calls."""
+        res = []
+        for e in t[1:]:
+            if e["ev"] == "Submit":
+                res.append([e["c"], False])
+            elif e["ev"] == "Deliver" and res:
+                res[-1][1] = True
+        return res
+
+    def stale_fork_admitted(t):
+        # fork sequence: after a valid later-fork object, the earlier-fork object signed with the later fork version is
+        # reported as admitted
+        cs = calls_of(t)
+        if t[1]["ev"] != "Submit" or len(cs) != 2 or len(t) != 6 or [c["alt"] for c, _ in cs] != ["laterFork", "wrongFork"] or not cs[0][1]:
+            return None
+        t.insert(5, dict(t[2]))
+        return t
+
+    def earlier_fork_refused(t):
+        # fork sequence: after a valid later-fork object, the valid earlier-fork object is reported as refused
+        cs = calls_of(t)
+        if t[1]["ev"] != "Submit" or len(cs) != 2 or len(t) != 7 or [c["alt"] for c, _ in cs] != ["laterFork", "none"] or not cs[1][1]:
+            return None
+        del t[5]
+        return t
 
     def permuted_batch_admitted(t):
         # batch: the elements carry each other's signatures, and the first one is reported as admitted
@@ -219,7 +288,9 @@ def mutators():
             t[2]["k"] = 0
             return t
         return None
-    return [("sequence: known signature on changed content reported as admitted", replayed_sig_admitted),
+    return [("fork sequence: earlier-fork object signed with the later fork version reported as admitted", stale_fork_admitted),
+            ("fork sequence: valid earlier-fork object after a later-fork one reported as refused", earlier_fork_refused),
+            ("sequence: known signature on changed content reported as admitted", replayed_sig_admitted),
             ("batch: element carrying another element's signature reported as admitted", permuted_batch_admitted),
             ("batch: one of three valid elements of a peer set not delivered", part_of_valid_peer_batch),
             ("delivery added to a refused case", spurious_delivery), ("delivery of a valid case dropped", lost_delivery),
@@ -242,7 +313,7 @@ def run(tier, seed):
     thorough = tier == "thorough"
     # stage 0 (design check) and stage 1 (case enumeration, one TLC job per family) are independent TLC jobs
     gdirs = [vlib.scratch(PID, FAMILY) for _ in GEN_CFGS]
-    with ThreadPoolExecutor(max_workers=4) as ex:
+    with ThreadPoolExecutor(max_workers=len(GEN_CFGS) + 1) as ex:
         fg = [ex.submit(enumerate_cases, cfg, d) for cfg, d in zip(GEN_CFGS, gdirs)]
         f0 = ex.submit(design_check, o, thorough)
         f0.result()
@@ -255,8 +326,14 @@ def run(tier, seed):
         scheds, nclasses = cases, len({cls(s) for s in cases})
     else:
         scheds, nclasses = select(cases, seed, 800)
-    log("[%s] %d schedules enumerated by TLC (%d single-element cases, %d batches, %d sequences; %.1fs), %d classes, %d selected"
-        % (PID, len(cases), nfam[0], nfam[1], nfam[2], max(r.wall for _, r in gens), nclasses, len(scheds)))
+    log("[%s] %d schedules enumerated by TLC (%d single-element cases, %d batches, %d sequences, %d fork sequences; %.1fs), "
+        "%d classes, %d selected" % (PID, len(cases), nfam[0], nfam[1], nfam[2], nfam[3], max(r.wall for _, r in gens),
+                                     nclasses, len(scheds)))
+    # every (path, kind) with an epoch-dependent domain is run through a fork sequence in both orders of epochs
+    want = {(s[1]["c"]["path"], s[1]["c"]["kind"], o) for s in cases for o in ("asc", "desc") if is_fseq(s)}
+    have = {(s[1]["c"]["path"], s[1]["c"]["kind"], fork_order(s)) for s in scheds}
+    if not want or want - have:
+        raise vlib.Infra("selection misses fork sequences: %s" % sorted(want - have)[:6])
     # endpoint cross-check first: an exported method of validatorapi.Component that takes signed input and is not in
     # the model (or the reverse) is an infrastructure failure, not a verdict
     vlib.run_schedules(PID, PKG, "TestExec", scheds[:1], tag="probe")
@@ -281,13 +358,30 @@ def run(tier, seed):
         if min(seq_ref, b_all, b_none) == 0:
             raise vlib.Infra("vacuous run: %d sequences with a refused call after an admitted one, %d batches admitted "
                              "entirely, %d refused" % (seq_ref, b_all, b_none))
+        # fork sequences, both orders of epochs: a valid second call admitted, a wrongly signed second call refused
+        fs = {}
+        for t in tr:
+            o2 = fork_order(t)
+            if o2 is None:
+                continue
+            calls = [i for i, e in enumerate(t) if e["ev"] == "Submit"]
+            if len(calls) < 2 or t[calls[0] + 1]["ev"] != "Deliver":
+                continue
+            a2 = t[calls[1]]["c"]["alt"]
+            got2 = t[calls[1] + 1]["ev"] == "Deliver"
+            if a2 in ("none", "laterFork") and got2:
+                fs[(o2, "admitted")] = fs.get((o2, "admitted"), 0) + 1
+            if a2 in ("wrongFork", "laterForkBad") and not got2:
+                fs[(o2, "refused")] = fs.get((o2, "refused"), 0) + 1
+        if len(fs) < 4:
+            raise vlib.Infra("vacuous run: fork sequences after an admitted first call: %s" % fs)
     n0 = len(o.selftests)
     vlib.binding_selftest(o, FAMILY, "AdmissionTrace", "AdmissionTrace.cfg", tr, mutators())
-    if len(o.selftests) - n0 < 9 and not o.violations:
+    if len(o.selftests) - n0 < 11 and not o.violations:
         raise vlib.Infra("binding self-test: some negative control found no applicable trace")
     return vlib.finish(o, "exploration", RULE, ASSUMPTIONS,
                        extra_cov={"cases_enumerated_by_tlc": len(cases), "single_element_cases": nfam[0], "batches": nfam[1],
-                                  "sequences": nfam[2], "case_classes": nclasses,
+                                  "sequences": nfam[2], "fork_sequences": nfam[3], "case_classes": nclasses,
                                   "cases_admitted": admitted, "cases_refused": len(tr) - admitted,
                                   "exhaustive": bool(thorough and not o.violations)})
 
